@@ -5,12 +5,13 @@
     [model_ok]: replaying the runs on the model gives the same results, the same per-run call
     sequences and the same final storage. [spec_ok]: the property's clauses evaluated on the
     implementation's observation alone (model vocabulary, not the model's output). *)
-From CM Require Import Lib.Str Lib.Wire Lib.CleanSyntax Gen.Consts Clean.Model.
+From CM Require Import Lib.Str Lib.Wire Lib.CleanSyntax Gen.Consts Clean.Model Clean.Prog.
 Open Scope Z_scope.
 
 Record runrec := RunRec {
   rr_tid : nat; rr_opts : opts; rr_faults : list nat; rr_cancel : option nat;
-  rr_t0 : Z; rr_t1 : Z; rr_res : N
+  rr_t0 : Z; rr_t1 : Z; rr_res : N;
+  rr_fops : list (nat * fop)   (* foreign operations (another actor, no lock) just before call number n of the run *)
 }.
 Record case := Case {
   c_lfe : bool; c_s0 : store; c_runs : list runrec; c_trace : list tev; c_s1 : store
@@ -49,7 +50,10 @@ Fixpoint replay (c : case) (runs : list runrec) (s : store) : option store :=
   match runs with
   | [] => Some s
   | r :: rest =>
-      let '(res, st') := clean (env_of c r) (rr_opts r) (rr_t0 r) s in
+      let '(res, st') := match rr_fops r with
+                         | [] => clean (env_of c r) (rr_opts r) (rr_t0 r) s
+                         | fs => cleani (env_of c r) fs (rr_opts r) (rr_t0 r) s
+                         end in
       if N.eqb (result_code res) (rr_res r) &&
          list_eqb event_eqb (rev (lg st')) (proj (rr_tid r) (c_trace c))
       then replay c rest (sto st')
@@ -116,6 +120,44 @@ Definition diff_ok (c : case) (k : key) : bool :=
   | _, _ => true
   end.
 
+(** *** the same when other actors wrote during the cleaning. [s0f] = the initial storage with
+    the foreign operations applied. A key touched by a foreign operation must end as that
+    operation left it, unless its deletion is justified by what the storage then held; a key not
+    touched is judged as before, a deletion being justified by the initial storage or by what
+    the other actors put there (e.g. X.key of an expired X.crt that appeared meanwhile). *)
+Definition all_fops (c : case) : list fop := flat_map (fun r => map snd (rr_fops r)) (c_runs c).
+Definition s0f (c : case) : store := fold_left (fun s f => fapply f s) (all_fops c) (c_s0 c).
+Definition touched (c : case) (k : key) : bool :=
+  existsb (fun f => match f with FPut k' _ => seqb k' k | FDel k' => covers k' k end) (all_fops c).
+Definition diff_ok_f (c : case) (k : key) : bool :=
+  let sf := s0f c in let s1 := c_s1 c in
+  let t := touched c k in
+  let base := if t then sf else c_s0 c in
+  let just := existsb (fun r => justified (rr_opts r) (rr_t1 r) sf k ||
+                                (negb t && justified (rr_opts r) (rr_t1 r) (c_s0 c) k)) (c_runs c) in
+  (if file_eqb (file base k) (file s1 k) then true else
+   match file s1 k with
+   | None => just
+   | Some (v, cl) =>
+       seqb k spec_last_clean && (v =? -1) &&
+       match as_clean cl with
+       | Some (ts, i) =>
+           existsb (fun r => (rr_t0 r <=? ts) && (ts <=? rr_t1 r) && seqb i (inst (rr_opts r)) &&
+                             stored_ok (proj (rr_tid r) (c_trace c))) (c_runs c)
+       | None => false
+       end
+   end) &&
+  match lookup base k, lookup s1 k with
+  | Some Dir, Some Dir => true
+  | _, Some Dir => false
+  | Some Dir, Some (File _ _) => false
+  | Some Dir, None =>
+      if site_folderb k && forallb (fun en => negb (under k (fst en))) s1 &&
+         existsb (fun r => do_certs (rr_opts r)) (c_runs c) then true
+      else just
+  | _, _ => true
+  end.
+
 (** per run, in lock order; [rec] = lower bound of the recorded time of the last cleaning *)
 Fixpoint runs_ok (c : case) (runs : list runrec) (rec : option Z) : bool :=
   match runs with
@@ -143,7 +185,10 @@ Definition rec0 (s0 : store) : option Z :=
 
 Definition spec_ok (c : case) : bool :=
   under_lock None (c_trace c) &&
-  forallb (diff_ok c) (map fst (c_s0 c) ++ map fst (c_s1 c)) &&
+  match all_fops c with
+  | [] => forallb (diff_ok c) (map fst (c_s0 c) ++ map fst (c_s1 c))
+  | _ => forallb (diff_ok_f c) (map fst (c_s0 c) ++ map fst (s0f c) ++ map fst (c_s1 c))
+  end &&
   runs_ok c (c_runs c) (rec0 (c_s0 c)).
 
 (** *** wire: keys and strings are packed (7 bytes per number); values are
@@ -184,7 +229,15 @@ Definition get_opts : dec opts :=
   i <- get_z ;; a <- get_bool ;; b <- get_bool ;; g <- get_z ;; n <- get_pstr ;; ret (Opts i a b g n).
 Definition get_run : dec runrec :=
   t <- get_nat ;; o <- get_opts ;; f <- get_list get_nat ;; c <- get_opt get_nat ;;
-  t0 <- get_z ;; t1 <- get_z ;; r <- get_n ;; ret (RunRec t o f c t0 t1 r).
+  t0 <- get_z ;; t1 <- get_z ;; r <- get_n ;; ret (RunRec t o f c t0 t1 r []).
+(** foreign operation: call index, kind (0 Store, 1 Delete), key, node (Store only) *)
+Definition get_fop (tbl : list str) (vals : list (bool * cls)) : dec (nat * fop) :=
+  i <- get_nat ;; kd <- get_z ;; ky <- get_key tbl ;;
+  if kd =? 0 then n <- get_node vals ;; ret (i, FPut ky n) else ret (i, FDel ky).
+Definition with_fops (r : runrec) (fs : list (nat * fop)) : runrec :=
+  RunRec (rr_tid r) (rr_opts r) (rr_faults r) (rr_cancel r) (rr_t0 r) (rr_t1 r) (rr_res r) fs.
+Definition get_run_f (tbl : list str) (vals : list (bool * cls)) : dec runrec :=
+  r <- get_run ;; fs <- get_list (get_fop tbl vals) ;; ret (with_fops r fs).
 Definition opk_of (n : Z) : option opk :=
   match n with
   | 0 => Some KLock | 1 => Some KUnlock | 2 => Some KLoad | 3 => Some KList
@@ -200,7 +253,7 @@ Definition get_tev (tbl : list str) : dec tev :=
   end.
 Definition get_case : dec case :=
   tbl <- get_list get_pstr ;; vals <- get_list get_val ;; l <- get_bool ;;
-  s0 <- get_store tbl vals ;; rs <- get_list get_run ;;
+  s0 <- get_store tbl vals ;; rs <- get_list (get_run_f tbl vals) ;;
   tr <- get_list (get_tev tbl) ;; s1 <- get_store tbl vals ;; ret (Case l s0 rs tr s1).
 
 Definition check_line (l : list Z) : Z :=
@@ -215,7 +268,7 @@ Fixpoint explain_runs (c : case) (runs : list runrec) (s : store) : list Z :=
   match runs with
   | [] => []
   | r :: rest =>
-      let '(res, st') := clean (env_of c r) (rr_opts r) (rr_t0 r) s in
+      let '(res, st') := cleani (env_of c r) (rr_fops r) (rr_opts r) (rr_t0 r) s in
       (-1) :: Z.of_N (result_code res) ::
       flat_map (fun ev => [Z.of_N (opk_code (ev_kind ev)); Z.of_nat (length (ev_key ev)); if ev_ok ev then 1 else 0]) (rev (lg st'))
       ++ explain_runs c rest (sto st')
@@ -225,7 +278,10 @@ Definition explain_line (l : list Z) : list Z :=
   | Some c =>
       explain_runs c (c_runs c) (c_s0 c) ++
       [-2; if under_lock None (c_trace c) then 1 else 0;
-       if forallb (diff_ok c) (map fst (c_s0 c) ++ map fst (c_s1 c)) then 1 else 0;
+       if match all_fops c with
+          | [] => forallb (diff_ok c) (map fst (c_s0 c) ++ map fst (c_s1 c))
+          | _ => forallb (diff_ok_f c) (map fst (c_s0 c) ++ map fst (s0f c) ++ map fst (c_s1 c))
+          end then 1 else 0;
        if runs_ok c (c_runs c) (rec0 (c_s0 c)) then 1 else 0]
   | None => []
   end.
